@@ -391,9 +391,9 @@ func C08(tier string) {
 	run := core.NewRun("C08", tier)
 	type target struct {
 		name, dir, re string
-		max       int
-		fs        bool
-		files     map[string]string
+		max           int
+		fs            bool
+		files         map[string]string
 	}
 	var targets []target
 	links := gen.AllLinks(nil, []string{"conc", "guard"})
